@@ -325,8 +325,102 @@ def audit_search(l):
     return None
 
 
+# ---- exact tables (closed forms, independent of the Lean model) for the audit of the dumped tables
+def exact_basis(b, K):
+    C, F = math.comb, math.factorial
+    def ent(i, k):   # coefficient of x^i in basis polynomial k
+        if b == 'Monomial':
+            return Fr(1 if i == k else 0)
+        if b == 'Bernstein':
+            return Fr((-1) ** (i - k) * C(K, k) * C(K - k, i - k)) if k <= i else Fr(0)
+        if b == 'Bspline':
+            return Fr(C(K, i), F(K)) * sum((-1) ** (s - k) * C(K + 1, s - k) * Fr(K - s) ** (K - i) for s in range(k, K + 1))
+        if i > k or (b != 'Laguerre' and (k - i) % 2):
+            return Fr(0)
+        m = (k - i) // 2
+        if b == 'Legendre':
+            return Fr((-1) ** m * C(k, m) * C(2 * k - 2 * m, k), 2 ** k)
+        if b == 'Chebyshev1st':
+            return Fr(1) if k == 0 else Fr(k, 2) * (-1) ** m * Fr(F(k - m - 1), F(m) * F(i)) * 2 ** i
+        if b == 'Chebyshev2nd':
+            return Fr((-1) ** m * C(k - m, m) * 2 ** i)
+        if b == 'Hermite':
+            return Fr((-1) ** m * F(k) * 2 ** i, F(m) * F(i))
+        if b == 'Laguerre':
+            return Fr((-1) ** i * C(k, i), F(i))
+        raise ValueError(b)
+    return [[ent(i, k) for k in range(K + 1)] for i in range(K + 1)]
+
+
+def exact_cum(b, K):
+    M = exact_basis(b, K)
+    for row in M:
+        for j in range(K - 1, -1, -1):
+            row[j] += row[j + 1]
+    return M
+
+
+def exact_monint(K, P):
+    return [[Fr(desc_fact(i, P) * desc_fact(j, P), i + j - 2 * P + 1) if min(i, j) >= P else Fr(0)
+             for j in range(K + 1)] for i in range(K + 1)]
+
+
+def audit_table(l):
+    """(error relative to the property tolerance scale, description) for one dumped table line"""
+    vals = [fr(w) for w in l.outs]
+    if any(v is None for v in vals):
+        return float('inf'), 'non-finite entry'
+    if l.op == 'poly_lgr':
+        K = int(l.grp)
+        if len(vals) != 2 * K:
+            return float('inf'), 'shape'
+        xs, ws = vals[:K], vals[K:]
+        if xs[0] != -1 or any(a >= b for a, b in zip(xs, xs[1:])) or xs[-1] >= 1 or any(w <= 0 for w in ws):
+            return float('inf'), 'nodes not increasing in [-1,1) from -1, or a weight <= 0'
+        worst, wm = Fr(0), 0
+        for m in range(2 * K - 1):
+            e = abs(sum(w * x ** m for x, w in zip(xs, ws)) - (Fr(2, m + 1) if m % 2 == 0 else 0))
+            if e > worst:
+                worst, wm = e, m
+        return float(worst), f'moment m={wm}'
+    if l.op == 'poly_monint':
+        K, P = map(int, l.grp.split(':'))
+        ex = exact_monint(K, P)
+    else:
+        b, K = l.grp.split(':'); K = int(K)
+        ex = exact_basis(b, K) if l.op == 'poly_basis' else exact_cum(b, K)
+    flat = [v for r in ex for v in r]
+    if len(flat) != len(vals):
+        return float('inf'), 'shape'
+    scale = max(abs(v) for v in flat)
+    worst, wi = Fr(0), 0
+    for i, (a, e) in enumerate(zip(vals, flat)):
+        if abs(a - e) > worst:
+            worst, wi = abs(a - e), i
+    rel = (worst / scale) if scale > 0 else (Fr(0) if worst == 0 else Fr(10 ** 30))
+    return float(rel), f'entry [{wi // (K + 1)}][{wi % (K + 1)}]'
+
+
 def is_sorted(r):
     return all(a <= b for a, b in zip(r, r[1:]))
+
+
+def t1_exact(lines):
+    """T1 for this unit: every op mirrors the C++ expression tree, so implementation and model must agree
+    to 0 ulp (numerically: -0 == +0, NaN/Inf compared as classes).  No sensitivity second pass."""
+    replies = vlib.run_driver([l.request() for l in lines])
+    stats, breaks = {}, []
+    for l, rep in zip(lines, replies):
+        st = stats.setdefault(l.op, {'n': 0, 'worst_ulp': 0.0})
+        st['n'] += 1
+        if rep.startswith('ERR'):
+            breaks.append({'line': l.raw, 'model': rep, 'err_ulp': None, 'why': 'model-error'})
+            continue
+        err, det = vlib.diff_ulp(l.outs, rep.split(), l.prec, l.ins if len(l.ins) <= 64 else l.ins[:1])
+        if err > 0.0:
+            breaks.append({'line': l.raw, 'model': rep, 'err_ulp': err, 'why': det or 'exact-op'})
+    breaks.sort(key=lambda b: len(b['line']))
+    return {'stats': stats, 'breaks': breaks}
 
 
 class C20:
@@ -339,7 +433,7 @@ class C20:
             'large, denormal, dyadic, overflow, generic); lagrange_basis K=0..10 x 9 node strata; polynomial_basis_derivatives x 3 kinds of B; '
             'integrate_absolute_polynomial x 26 strata (linear root inside/left/right/at end, constant, both threshold bands, |A| or |B| exactly '
             'at 1e-9 and one ulp off, two/one/no roots inside, roots at the interval ends, exact and near double roots, no real root, degenerate and '
-            'reversed intervals, tiny A with large B, large scale, generic); binary_interval_search: ALL sorted ranges of length <= 8 over a 4-letter '
+            'reversed intervals, tiny A with large B, large scale, generic); binary_interval_search: ALL sorted ranges of length <= 8 (thorough: 11) over a 4-letter '
             'alphabet (fixed, seeded-random, int) x 9 queries, random ranges up to 2200 elements x 8 shapes x 6 query kinds, crash probes; '
             'every constexpr table (8 bases x K=0..10, cumulative, monomial_integral K<=10 x P<=4, lgr_nodes K=1..16). '
             'distinct_nontrivial = distinct (op, parameters, input bits) with at least one non-zero input')
@@ -348,11 +442,15 @@ class C20:
                    'integrate_absolute_polynomial inside the threshold bands (0<|A|<1e-9, |B|<=1e-9) and for t0>t1 is outside the theorem',
                    'search model assumes `wo` is the default ordering on double/int without NaN; casts of NaN/negative alpha are undefined in the C++']
 
+    def prebuild(self):
+        """build the harness binary (called by tools/prebuild.py during setup)"""
+        harness()
+
     # ------------------------------------------------------------------ line production
-    def gen_lines(self, ctx, n, seed=None):
+    def gen_lines(self, ctx, n, seed=None, exh_len=8):
         b = harness()
         env = {'VERIF_SEED': str(ctx['seed'] if seed is None else seed)}
-        raw = vlib.run_harness(b, [n], env=env)
+        raw = vlib.run_harness(b, [n, exh_len], env=env)
         raw += vlib.run_harness(b, ['dump'])
         return vlib.parse_lines(raw)
 
@@ -373,7 +471,9 @@ class C20:
     # ------------------------------------------------------------------ checks on a set of lines
     def check_lines(self, ctx, lines, probes=None):
         findings, broken, samples = [], [], []
-        t1 = vlib.t1_compare(lines, tol_ulp=16.0, exact_ops=EXACT_OPS, rng_seed=ctx['seed'])
+        defined_probes = [l for l in (probes[0] if probes else [])
+                          if not any(k in l.tag for k in ('nan_alpha', 'minus_inf', 'both_inf'))]
+        t1 = t1_exact(lines + defined_probes)
         if t1['breaks']:
             by = {}
             for b in t1['breaks']:
@@ -426,6 +526,14 @@ class C20:
                     finding(l, {'fn': 'integrate_absolute_polynomial', 'region': l.tag}, r[0],
                             f'result {r[2]!r} != integral of |A t^2+B t+C| = {r[1]!r} (error relative to max(1, antiderivative scale))',
                             inputs=dict(zip(('t0', 't1', 'A', 'B', 'C'), l.in_vals())))
+            elif l.op in ('poly_basis', 'poly_cumbasis', 'poly_monint', 'poly_lgr'):
+                e, why = audit_table(l)
+                n_audit += 1; note(l.op, e if math.isfinite(e) else 0.0)
+                if not (e <= TOL):
+                    fn = {'poly_basis': 'polynomial_basis', 'poly_cumbasis': 'polynomial_cumulative_basis',
+                          'poly_monint': 'monomial_integral', 'poly_lgr': 'lgr_nodes'}[l.op]
+                    finding(l, {'fn': fn, 'table': l.grp}, e,
+                            f'{fn}<{l.grp}>: constexpr table differs from its definition at {why}')
             elif l.op in ('search_f64', 'search_int'):
                 n_audit += 1
                 why = audit_search(l)
@@ -449,16 +557,13 @@ class C20:
                 toks = body.split()
                 findings.append({'property': PID, 'key': {'fn': 'binary_interval_search', 'range': toks[1][7:], 'region': tag.strip()},
                                  'err': None, 'tol': None, 'what': 'implementation crashed: ' + body.split(' | ')[-1], 'line': c[6:][:6000]})
+        findings.sort(key=lambda f: len(f.get('line', '')))   # shortest failing input of each kind first
         strata, sig = {}, set()
         for l in lines:
             strata[l.tag] = strata.get(l.tag, 0) + 1
             if any(v != 0 for v in l.in_vals()) or not l.ins:
                 sig.add((l.op, l.grp, tuple(l.ins)))
-        agg = {}
-        for k, v in t1['stats'].items():
-            op = k.split('|')[0]
-            a = agg.setdefault(op, {'n': 0, 'worst_ulp': 0.0})
-            a['n'] += v['n']; a['worst_ulp'] = max(a['worst_ulp'], v['worst_ulp'])
+        agg = t1['stats']
         searches = [l for l in lines if l.op.startswith('search')]
         samples += [{'line': l.raw[:400]} for l in searches[:2]]
         cov = {'evaluations': len(lines) + n_probe, 'distinct_nontrivial': len(sig), 'rule': self.rule, 'samples': samples,
@@ -472,8 +577,8 @@ class C20:
 
     # ------------------------------------------------------------------ entry points
     def explore(self, ctx):
-        n = 12 if ctx['tier'] == 'quick' else 150
-        lines = self.gen_lines(ctx, n)
+        quick = ctx['tier'] == 'quick'
+        lines = self.gen_lines(ctx, 12 if quick else 400, exh_len=8 if quick else 11)
         return self.check_lines(ctx, lines, probes=self.probe_lines())
 
     def search(self, ctx, broken):
@@ -493,8 +598,13 @@ class C20:
             return {'coverage': {}, 'findings': [], 'broken': payload.get('no_longer_checks', [])}
         probe_reqs = [r for r in reqs if '# probe_' in r]
         reqs = [r for r in reqs if '# probe_' not in r]
-        lines = [l for l in self.eval_lines(reqs) if l is not None] if reqs else []
-        probes = self.probe_lines() if probe_reqs else None
+        try:
+            lines = [l for l in self.eval_lines(reqs) if l is not None] if reqs else []
+        except vlib.HarnessRunError as e:   # the implementation crashed on a replayed input
+            return {'coverage': {}, 'broken': [],
+                    'findings': [{'property': PID, 'key': {'fn': 'replay', 'kind': 'crash'}, 'err': None,
+                                  'what': f'implementation exited with {e.rc} on a replayed input', 'line': reqs[0][:6000]}]}
+        probes = self.probe_lines() if probe_reqs else None   # probe inputs are fixed: the whole probe set is re-run (forked)
         return self.check_lines(ctx, lines, probes=probes)
 
 
